@@ -657,7 +657,7 @@ func init() {
 			"and after Detach/Deactivate/Remove the client's version-vector row is gone and its stored status is not attached; states = canonical model states, transitions = replayed (path, event) pairs",
 		Assume: []string{"memdb backend", "canonical state = client status, attachment status, whether the attachment refers to the key's live generation, liveness of each key; " +
 			"checkpoints/log length are not part of it (handlers do not branch on them for accept/reject), and part (a) does not merge states at all"},
-		QuickBudget: 150 * time.Second,
+		QuickBudget: 300 * time.Second,
 		Run:         c11Run,
 		Reproduce: func(f *Found) (bool, error) {
 			var c lcCase
